@@ -182,6 +182,13 @@ BUILTIN_EXC_BASES = {
     "FloatingPointError": "ArithmeticError", "BufferError": "Exception", "EOFError": "Exception", "MemoryError": "Exception",
     "Exception": "BaseException", "BaseException": None, "Warning": "Exception", "UserWarning": "Warning",
     "ImportError": "Exception", "RecursionError": "RuntimeError", "timeout": "OSError",
+    "UnsupportedOperation": "OSError", "BadGzipFile": "OSError", "FileNotFoundError": "OSError", "PermissionError": "OSError",
+    "IsADirectoryError": "OSError", "ConnectionError": "OSError", "ConnectionResetError": "ConnectionError",
+    "BrokenPipeError": "ConnectionError", "TimeoutError": "OSError", "BlockingIOError": "OSError", "InterruptedError": "OSError",
+    "KeyboardInterrupt": "BaseException", "GeneratorExit": "BaseException", "SystemExit": "BaseException",
+    "PicklingError": "Exception", "UnpicklingError": "Exception", "error": "Exception", "ModuleNotFoundError": "ImportError",
+    "IndentationError": "SyntaxError", "SyntaxError": "Exception", "DeprecationWarning": "Warning", "RuntimeWarning": "Warning",
+    "FutureWarning": "Warning", "ResourceWarning": "Warning", "UnicodeTranslateError": "UnicodeError",
 }
 
 _NATIVE_TYPES = (int, float, bool, str, bytes, bytearray, type(None), list, tuple, dict, set, frozenset, range, slice)
@@ -1638,6 +1645,8 @@ class Interp:
                 if isinstance(v, TupleObj) and v.cls == x.name:
                     return True
             elif isinstance(x, type):
+                if getattr(v, "_spv_not_bytes", False) and x in (bytes, bytearray):
+                    continue          # a model of a bytes-like object that is not a bytes instance (mmap)
                 if isinstance(v, _NATIVE_TYPES) and isinstance(v, x):
                     return True
             elif isinstance(x, Obj) and "__extmodule__" in x.attrs:
